@@ -66,6 +66,7 @@ type OnWrite struct {
 }
 
 type OnSend struct {
+	DefPkg   string // channel hooks apply only inside the package that declares them
 	Elem     string
 	Ch, Val  string
 	Requires []Clause
